@@ -141,3 +141,30 @@ def check(ctx):
         ae = ctx.one_call(sb, "petgraph::graph_impl::stable_graph::StableGraph::add_edge")
         ctx.arg_origin("4.edge-from-dependency", ae, 1, "call:fuel_core_txpool::storage::checked_collision::CheckedTransaction::unpack", depth=2)
         ctx.arg_origin("4.edge-to-new-node", ae, 2, "call:petgraph::graph_impl::stable_graph::StableGraph::add_node", depth=0)
+
+    # -- 5. details the guards depend on: which transaction is tested, and when the ancestor is counted --
+    with ctx.clause("5.guard-operands"):
+        cb = ctx.body_with(f"{POOL}::process_committed_transactions", f"{SA}::new_executable_transaction")
+        HD5 = "fuel_core_txpool::storage::Storage::has_dependencies"
+        hd = [c for c in cb.calls_to(HD5) if c.bb in cb.live]
+        nes5 = [c for c in cb.calls_to(f"{SA}::new_executable_transaction") if c.bb in cb.live]
+        pushes5 = [c for c in cb.calls_to("alloc::vec::Vec::push") if any(ctx.same_local(cb, c.args[0], ne.args[1], depth=2) for ne in nes5)]
+        ctx.expect_sites("5.committed-dependency-test", hd, exactly=1, what="has_dependencies(..) test in process_committed_transactions")
+        if hd and pushes5:
+            ctx.add("5.tested-transaction-is-the-promoted-one", "PROV", all(ctx.same_local(cb, hd[0].args[1], p5.args[1], depth=1) for p5 in pushes5),
+                    "has_dependencies is asked about the dependent that is about to be promoted (not about the committed transaction that was just removed, for which it is always false)",
+                    sites=[hd[0].where()] + [p5.where() for p5 in pushes5], site_key="same")
+        gb = F.unit(f"<{GS} as {STORAGE}>::can_store_transaction").root
+        pop = ctx.one_call(gb, "alloc::vec::Vec::pop")
+        ins5 = [c for c in gb.calls if c.bb in gb.live and c.name == "insert" and "HashSet" in c.path]
+        lens = [c for c in gb.calls if c.bb in gb.live and c.name == "len" and "HashSet" in c.path]
+        ctx.expect_sites("5.ancestor-recorded", ins5, exactly=1, what="all_dependencies.insert(node_id)")
+        ctx.expect_sites("5.ancestor-count-read", lens, exactly=1, what="all_dependencies.len()")
+        if ins5 and lens:
+            some5, _ = ctx.ok_edges(pop)
+            st5 = [ctx._edge_target(gb, e) for e in some5]
+            ctx.add("5.ancestor-counted-before-the-limit-test", "ORDER", gb.path(st5, [lens[0].bb], cut_blocks=[ins5[0].bb]) is None,
+                    "the ancestor just visited is inserted before the number of ancestors is compared with max_txs_chain_count (otherwise a chain one longer than the limit is accepted)",
+                    sites=[ins5[0].where(), lens[0].where()], site_key="order")
+            ctx.add("5.recorded-and-counted-set-are-the-same", "PROV", ctx.same_local(gb, ins5[0].args[0], lens[0].args[0]), "insert and len act on the same set", sites=[lens[0].where()], site_key="set")
+            ctx.arg_origin("5.recorded-node-is-the-visited-one", ins5[0], 1, "call:alloc::vec::Vec::pop", depth=1)
